@@ -13,7 +13,7 @@ E1_NOTE = 'libzmq and the clock are modelled (mc/simzmq.py, mc/sched.py; cross-c
 
 T = {
  'C01': ('E1-simnet', 'model_checking', E1_TECH,
-         'Every schedule (process order, per-pipe message hold-back at every poll, timer-before-delivery) with at most d deviations from the default, for a completely enumerated family of topologies x behaviours x subscription forms, executes the real filters; the oracle checks every MQ.recv result and process() input for one message id, complete topic set per synchronized source, one ancestor.',
+         'Every schedule (process order, per-pipe message hold-back at every poll, timer-before-delivery) with at most d deviations from the default, for a completely enumerated family of topologies x behaviours x subscription forms, executes the real filters; the oracle checks every MQ.recv result and process() input for one message id, complete topic set per synchronized source, one ancestor. Also: a ? side channel whose ids outrun the join, and a join that wakes up when idle (sources_timeout) holding one source\'s complete set.',
          E1_NOTE, '4 C01'),
  'C02': ('E1-simnet', 'model_checking', E1_TECH,
          'Order/duplication: all schedules with <= d deviations under arbitrary delays, plus a hard kill + restart of publisher, relay or consumer inserted at every scheduling point with several restart delays; content: every topic-set x payload-kind x subscription-spec combination (remapped / swapped / hidden names, outputs_jpg None / False, frames holding raw pixels and a cached JPEG, sources that reuse image buffers and state dicts, consumers that annotate in place) through real sockets code, compared with a reference selection function.',
@@ -25,7 +25,7 @@ T = {
          'Every stall position (sole consumer, one of two, behind a relay, mixed with an ephemeral source, same-id replicas, worker on a balanced branch shared with a synchronized logger) x stall start index x stall length x speed combination, two consecutive pauses, slow-start producers; all timely schedules with <= d deviations in the first 1100-2200 ms; for every stall of the run counts the publishes of every upstream producer on the endpoint leading to the stalled consumer (<= 9, none later than 700 ms into it).',
          E1_NOTE, '4 C04'),
  'C05': ('E1-simnet', 'model_checking', E1_TECH,
-         'Every mix of ? and ?? listeners (fast, slow, stalled, late, killed at every step) on a publisher with a synchronized sink: synchronized stream equals the listener-free reference model on every schedule with <= d deviations, identical virtual delivery times on the default schedule, no request traffic from ?? listeners, ephemeral sets complete and ordered; consumers mixing ephemeral and synchronized sources (two deviations for multi-topic ephemeral sources), ephemeral branches with synchronized consumers of their own, watchers that register late on a publisher that is then asked to jump ahead.',
+         'Every mix of ? and ?? listeners (fast, slow, stalled, late, killed at every step) on a publisher with a synchronized sink: synchronized stream equals the listener-free reference model on every schedule with <= d deviations, identical virtual delivery times on the default schedule, no request traffic from ?? listeners, ephemeral sets complete and ordered; consumers mixing ephemeral and synchronized sources (two deviations for multi-topic ephemeral sources), ephemeral branches with synchronized consumers of their own, watchers that register late on a publisher that is then asked to jump ahead. Also: listeners on the branches of a balancing publisher (shared with a worker and a synchronized logger, or on a worker-less branch) under per-branch request accounting, and consumers listing an ephemeral source before / after a synchronized one whose subscription comes up late.',
          E1_NOTE, '4 C05'),
  'C06': ('E1-simnet', 'model_checking', E1_TECH,
          'One hard kill (requests in flight to the victim delivered to the next incarnation or lost with it) or graceful stop of every filter of chain / tee / rejoin / balanced pipelines, with and without ? listeners and required outputs, inserted at every scheduling point of the reference run (quick: every point where the victim is about to step) with restart delays 0 / 300 ms / CONN_TIMEOUT+200 ms / never, late kills with one further deviation, consumers silent for longer than the time-out, and fault-free runs of skipping / slow rejoins with one deviation: every live consumer must process a new frame within CONN_TIMEOUT + 5 poll intervals and keep doing so, a publisher waits for a missing required output; order and set-integrity oracles throughout.',
@@ -37,7 +37,7 @@ T = {
          'Every way a run can end (exit()/exception in init, setup, k-th process, shutdown; stop event; exit_after) x run length 0.4 / 0.7 / 1 / 1.8 / 2.5 heartbeat intervals, slow lineage backends and backends that refuse an event kind: all interleavings of the two threads with <= 2 (quick) / 4 (thorough) preemptions at Event/Lock/emit/poll/sleep operations; history must be START RUNNING* (COMPLETE|ABORT), one run id, COMPLETE iff run() returned normally.',
          'The OpenLineage client is a capturing fake; lineage.threading is replaced by mc/simthread.py; memory-level races between the two threads are explored at synchronisation operations and emit calls only.', '4 C18'),
  'C07': ('E1-simnet', 'model_checking', E1_TECH,
-         'Splitter with balanced outputs over 2-4 branches, workers of all speed combinations, balanced-sources joiner: all schedules with <= d deviations under arbitrary delays; each id on exactly one branch, rejoined stream duplicate-free, strictly increasing, one id per set; ? / ?? watchers on branches, branches without a worker, workers that exit, joiners with an output that skip frames (two deviations for the every-third-frame variant).',
+         'Splitter with balanced outputs over 2-4 branches, workers of all speed combinations, balanced-sources joiner: all schedules with <= d deviations under arbitrary delays; each id on exactly one branch, rejoined stream duplicate-free, strictly increasing, one id per set; ? / ?? watchers on branches, branches without a worker, workers that exit, joiners with an output that skip frames (two deviations for the every-third-frame variant). Also: a branch shared by a worker, a synchronized logger and a ? listener: a frame goes out on a branch only when every synchronized consumer of it has had a request of its own read since the previous frame.',
          E1_NOTE, '4 C07'),
 }
 
